@@ -5,7 +5,7 @@ binding was stored, unless the stored topic compared equal; a new binding is sto
 negotiated Topic Alias Maximum, whose origin is traced to the negotiated value; the alias maps are
 per-connection objects (no statics, constructed in the per-connection constructors); the router
 matches on the resolved topic and consults its cache only for empty topics. Sequences of publishes
-as such are not decided. bind (continued): the v5 client's enforced limit is not taken from CONNACK.topic_alias_max (that value limits the other direction).
+as such are not decided. bind (continued): the v5 client's enforced limit is not taken from CONNACK.topic_alias_max (that value limits the other direction). per-connection (continued): nothing clears the alias tables, removes bindings or overwrites the struct holding them while the connection lives.
 """
 from facts import *
 from disp import *
